@@ -44,7 +44,7 @@ def run(ctx):
         ctx.equal('AES.sboxinvtable', t['sboxinv'], K.aes_sbox_inv(), AES, 'inverse S-box')
         for nm in ('sboxtable', 'sboxinvtable'):
             v = t['cenv'][nm]
-            ctx.check('AES.%s-ring' % nm, v[0] == 'call' and dict(v[3]).get('size') == T.C(8), 'table is not a Poly over bytes (size=8)', AES)
+            ctx.check('AES.%s-ring' % nm, v[0] == 'call' and T.kwargs_of(v).get('size') == T.C(8), 'table is not a Poly over bytes (size=8)', AES)
         ctx.equal('AES.size', ctx.pyval(t['cenv'].get('size', T.NONE)), 128, AES, 'class attribute size')
         # gmul: tabulate the guarded formula on all byte pairs
         sm = ctx.summ(AES, 'gmul')
@@ -108,7 +108,7 @@ def run(ctx):
     # per key size: the tables selected by the constructor
     for nw in (4, 8, 16):
         def tf(nw=nw):
-            kt = ('obj', ('sym', 'K0'), (('size', T.C(64 * nw)),))
+            kt = T.mk_obj(('sym', 'K0'), {'size': T.C(64 * nw)})
             # constructor with a key of nw words: fold pi, piinv, R, Nr
             pe_kw = dict(unroll=64)
             sm = ctx.summ(TF, 'Threefish.__init__', unroll=64,
